@@ -12,6 +12,7 @@ RULE = ("Trainer.fit / Trainer.test runs over epochs 1-4 x training batches 1-6 
         "and batch-norm buffers, whether all optimizer-held gradients are clear when a backward starts and whether they are unchanged between backward and step; batches are classified by role (back-propagated or not) and the trace is checked offline against the grammar of the statement; history and accuracies are recomputed from "
         "the recorded batch losses / outputs. distinct key = configuration tuple; non-trivial = >= 2 epochs or >= 2 batches")
 RULE += (' Added after the seeded rounds: optimizer holding a parameter outside the model, model parts left in eval mode, loader peeked before fit, callback leaving eval mode, unequal batches, models nested three levels deep, gradients left over from before fit, a second fit on the same Trainer, a callback raising inside the validation pass, binary mode on un-squashed outputs.')
+RULE += (" Round 6 / reach monitor: Evaluator without accuracy but with step / epoch callbacks; batches whose loss is exactly 0.0; a fit that follows a run aborted by a raising callback (metrics over its own samples only); a user-defined layer applying element-wise ops to its parameters.")
 ASSUMPTIONS = ["pkbar replaced by a silent stub if unimportable (progress bar only)", "batch sizes >= 2 (Evaluator.step squeezes a batch of one sample to 0-d and "
                "rejects it; that input is outside 'any number of batches')", "losses / accuracies compared to 1e-5 relative (float32 training)"]
 SHARD_TIMEOUT = {"quick": 900, "thorough": 3600}
